@@ -1,4 +1,5 @@
 # C16: 3DS arc extraction returns exactly the packed files; the four error cases.
+import json
 import os
 
 from common import PropertyCheck, Case
@@ -56,7 +57,23 @@ def share_bodies(rng, files):
     return out
 
 
-def render(image, expect, files):
+def first_data_word(image):
+    """the first u32 of the data region of a little-endian bin-archive image (None when the region is shorter)"""
+    if len(image) < 0x24:
+        return None
+    dsz = int.from_bytes(image[4:8], "little")
+    if dsz < 4:
+        return None
+    return int.from_bytes(image[0x20:0x24], "little")
+
+
+def render(image, expect, files, padded=None):
+    if expect == "ok" and padded is False:
+        expect = "ok:unpadded"       # the writer's knob travels with the case: no 0x60 header in this image (signature of F27)
+    return render0(image, expect, files)
+
+
+def render0(image, expect, files):
     """arc B<image> E<expected outcome> (B<name> B<body>)*   - the expectation travels with the case so that a replay
     evaluates the same oracle; the tools read the image only"""
     parts = ["arc", B(image), "E" + expect]
@@ -73,6 +90,17 @@ def parse_case(line):
     return image, expect, files
 
 
+def _load_known():
+    p = os.path.join(os.path.dirname(os.path.dirname(os.path.abspath(__file__))), "known_findings.json")
+    try:
+        return json.load(open(p)).get("findings", [])
+    except (OSError, ValueError):
+        return []
+
+
+KNOWN = _load_known()
+
+
 class C16(PropertyCheck):
     pid = "C16"
     source_tables = ["ARC_LABELS", "ARC_HEADER_PAD", "BIN_HEADER"]   # tables / constants regenerated from /repo's source (gen/srctables.py)
@@ -80,7 +108,8 @@ class C16(PropertyCheck):
     rule = ("streams: images from a Python arc writer on top of a Python bin-archive writer with layout knobs (padded 0x60 header or "
             "not, record order != body order, unaligned / empty / zero-filled bodies with gaps, bodies before and AFTER the tables, a body ending "
             "exactly on the last byte of the data region, an EMPTY file as the last body with nothing after it (start address = size of the data region), "
-            "shared and overlapping ranges, Count before or after Info, Count / Info ALSO on higher addresses (the lowest address counts: F22), "
+            "shared and overlapping ranges, un-padded images with the bodies from data offset 0 (first word zero = known finding F27, stream "
+            "unpadded-zero-first-word), Count before or after Info, Count / Info ALSO on higher addresses (the lowest address counts: F22), "
             "extra labels, permuted pointer and label tables, junk and duplicated strings in the text section, non-ASCII lossless names), "
             "0-12 files quick / up to 100 thorough; each error variant (no Count, no Info, record without a string, range leaving the data "
             "region, planted offsets incl. 0xFFFFFFF0 = finding F9, Count larger/smaller than the table); ArcTest.arc. The result is compared "
@@ -108,9 +137,11 @@ class C16(PropertyCheck):
                       tail=rng.choice([0.0, 0.0, 0.3, 1.0]), end_exact=rng.random() < 0.5, share=share,
                       indices=rng.choice(["seq", "seq", "zero", "dup", "random"]),
                       decoys=rng.choice([None, None, None, "count", "info", "both"]),
-                      data_label=rng.choice(["base", "base", "none", "body", "end"]))
+                      data_label=rng.choice(["base", "base", "none", "body", "end"]), tail_share=rng.random() < 0.2)
+            if not kw["padded"] and rng.random() < 0.3:
+                kw["sentinel"] = False           # bodies from data offset 0 (first word 0 => known finding F27)
             image, exp = txtfile.arc_write(files, rng, **kw)
-            cases.append(Case(render(image, exp, files), "layout-knobs"))
+            cases.append(Case(render(image, exp, files, kw["padded"]), "layout-knobs"))
         if not quick:
             for nf in (50, 100):
                 for padded in (True, False):
@@ -137,6 +168,16 @@ class C16(PropertyCheck):
                         image, exp = txtfile.arc_write(fs, rng, padded=padded, permute_bodies=False, unaligned=bool(rep & 1), count_first=count_first,
                                                        extra_labels=bool(rep & 2), tail=1.0, end_exact=True, empty_last=True)
                         cases.append(Case(render(image, exp, fs), "empty-last"))
+        # known finding F27: UN-padded images whose first body starts with a zero word (or is empty / short and zero), bodies from
+        # data offset 0.  The property demands Ok with the packed files; the library takes the zero word for the 0x60 header.
+        zb = [b"\x00\x00\x00\x00\xaa\xbb", bytes(4), bytes(8), b"\x00\x00\x00\x00" + bytes(range(1, 30)), bytes(3), b""]
+        for rep in range(40 if quick else 400):
+            first = zb[rep % len(zb)]
+            nf = (1, 1, 2, 3, 7, 7, 12)[rep % 7]
+            fs = [(b"z", first)] + [(b"f%d" % j, bytes([0x10 + j]) * rng.choice([8, 8, 1, 5, 200])) for j in range(1, nf)]
+            image, exp = txtfile.arc_write(fs, rng, padded=False, sentinel=False, permute_bodies=False, unaligned=False, gaps=False,
+                                           count_first=bool(rep & 1), extra_labels=bool(rep & 2), shuffle_tables=bool(rep & 4))
+            cases.append(Case(render(image, exp, fs, False), "unpadded-zero-first-word"))
         # Count / Info on SEVERAL addresses: the lowest address counts (finding F22, repair 10408e9; before it the answer
         # depended on the hash order of the label map and changed from run to run)
         for rep in range(60 if quick else 600):
@@ -144,19 +185,42 @@ class C16(PropertyCheck):
             image, exp = txtfile.arc_write(fs, rng, padded=bool(rep & 1), count_first=bool(rep & 2), shuffle_tables=bool(rep & 4),
                                            extra_labels=bool(rep & 8), tail=rng.choice([0.0, 1.0]), decoys=("count", "info", "both")[rep % 3])
             cases.append(Case(render(image, exp, fs), "several-addresses"))
+        # images of a string-POOLING packer: a name / label text stored as the TAIL of a longer string of the table ("a.bin" inside
+        # "data.bin", the label "Info" inside the name "SceneInfo", "Count" inside "DisCount") - seeded C16-7
+        pools = [[b"data.bin", b"a.bin", b"bin"], [b"SceneInfo", b"x"], [b"DisCount", b"Count.bin", b"t"], [b"SceneInfo", b"DisCount", b"nfo", b"o"],
+                 [b"dir/sub/file.lz", b"file.lz", b"le.lz", b".lz", b"z"], [b"\x93\xfa\x96\x7b\x8c\xea.lz", b"\x8c\xea.lz", b".lz"]]
+        for rep in range(48 if quick else 480):
+            names = pools[rep % len(pools)]
+            fs = [(n, bytes(rng.getrandbits(8) for _ in range(rng.choice([0, 3, 8, 17])))) for n in names]
+            rng.shuffle(fs)
+            image, exp = txtfile.arc_write(fs, rng, padded=bool(rep & 1), count_first=bool(rep & 2), extra_labels=bool(rep & 4),
+                                           shuffle_tables=bool(rep & 8), junk_text=bool(rep & 16), tail_share=True)
+            cases.append(Case(render(image, exp, fs, bool(rep & 1)), "tail-shared-strings"))
+        # a missing label is an error also when NOTHING is packed (count word 0): Count present + Info absent, Info present +
+        # Count absent, both absent - padded or not, Count before or after Info, with and without other labels (seeded C16-8)
+        for drop in ("info", "count", "both"):
+            for mask in range(16):
+                image, exp = txtfile.arc_write([], rng, padded=bool(mask & 1), count_first=bool(mask & 2), extra_labels=bool(mask & 4),
+                                               shuffle_tables=bool(mask & 8), drop=drop)
+                cases.append(Case(render(image, exp, []), "errors-empty-" + drop))
         # error variants
         n_err = 600 if quick else 8000
         for _ in range(n_err):
             nf = rng.randint(1, 6)
             files = rnd_files(rng, nf, 24)
+            pre_v = None
+            if rng.random() < 0.15:              # label errors on an EMPTY archive as well
+                nf, files, pre_v = 0, [], rng.choice(["nocount", "noinfo", "noboth"])
             kw = dict(padded=rng.random() < 0.5, unaligned=rng.random() < 0.5, count_first=rng.random() < 0.5,
                       extra_labels=rng.random() < 0.5, shuffle_tables=rng.random() < 0.5)
-            v = rng.choice(["nocount", "noinfo", "noname", "range", "more", "fewer", "offset"])
+            v = pre_v or rng.choice(["nocount", "noinfo", "noboth", "noname", "range", "more", "fewer", "offset"])
             shown = files
             if v == "nocount":
                 kw["drop"] = "count"
             elif v == "noinfo":
                 kw["drop"] = "info"
+            elif v == "noboth":
+                kw["drop"] = "both"
             elif v == "noname":
                 kw["bad_name"] = rng.randrange(nf)
             elif v == "range":
@@ -205,7 +269,7 @@ class C16(PropertyCheck):
         image, expect, files = parse_case(case.line)
         if expect is None or expect == "any":
             return None
-        if expect == "ok":
+        if expect in ("ok", "ok:unpadded"):
             want = {}
             for (n, b) in files:
                 want[tuple(unL(txtfile.DECODER.dec(n)[0]))] = B(b)
@@ -217,6 +281,22 @@ class C16(PropertyCheck):
             return None if impl_out.startswith("err:") else "a non-conforming image was accepted: " + impl_out[:200]
         if impl_out != expect:
             return "expected %s, got %s" % (expect, impl_out[:200])
+        return None
+
+    def known_finding(self, case, impl_out, failure):
+        """F27 (known_findings.json, status known).  Signature, decided ON THE CASE: a conforming image written WITHOUT the 0x60
+        header (expectation token ok:unpadded = the writer's knob) whose first data word is zero; the library's answer is an
+        out-of-bounds error or an Ok with other bytes (any other outcome - a panic, another error - is still a violation)."""
+        if not case.line.startswith("arc "):
+            return None
+        image, expect, files = parse_case(case.line)
+        if expect != "ok:unpadded" or first_data_word(image) != 0:
+            return None
+        if not (impl_out == "err:oob" or impl_out.startswith("ok [")):
+            return None
+        for f in KNOWN:
+            if f.get("id") == "F27" and f.get("status") == "known" and f.get("property") == "C16":
+                return f["what"]
         return None
 
     def agree(self, case, impl_out, model_out, profile):
@@ -240,7 +320,15 @@ MANIFEST = dict(
          "no panic and no fuel exhaustion on ANY archive in both arithmetic modes. Model tied to /repo on every run by the extracted model vs "
          "the real library on images from a Python arc writer with layout knobs and error variants (debug and release), results compared as "
          "sorted maps with the file set the image was built from.",
-    note=TB + "Byte level: C16_file_reads_content (on every file conforming to C01's format relation arc::from_bytes is the archive-level reader on the "
+    note=TB + "KNOWN FINDING F27 (known_findings.json, status known, NOT repaired): the property's quantifier 'with and without the padded header, "
+              "any placement of file bodies' includes UN-padded images whose first data word is 0 (first body starting with 00 00 00 00, an empty / "
+              "short zero body or a gap at data offset 0); arc.rs:23 takes that word for the 0x60 header and adds 0x60 to every offset: Err(OutOfBounds) "
+              "or, with enough slack behind the bodies, Ok with bytes of the Count/Info tables (silent wrong data). The model agrees with the code. The full "
+              "statement C16_extract_full (every image the text describes, explicit padding) is REFUTED in Coq (witnesses: one file rejected, seven files "
+              "accepted with wrong bytes); proved is C16_extract_outside_known (every described image that is not 'un-padded layout and first data word = 0'). "
+              "The check generates such images (stream unpadded-zero-first-word, and the layout knobs without sentinel word), the oracle fails on them and "
+              "they are reported as KNOWN-FINDING by signature on the case; any other failure is still a VIOLATION. "
+              "Byte level: C16_file_reads_content (on every file conforming to C01's format relation arc::from_bytes is the archive-level reader on the "
               "file's content - no uniqueness of the labels needed after the repair 10408e9), so every theorem speaks about files; "
               "proved from C01's parser correctness, Proofs/TextBinBridge.v + ArcBytes.v. "
               "Modelled, not verified: HashMap, Vec (A-std), encoding_rs for names (A-codec). Repaired defects: F9 bc4a741, F22 10408e9 (find_label_address = lowest address).",
